@@ -118,16 +118,14 @@ def step (a : Acc) (toks : List String) : Acc :=
       | none => a.fail "bad reinit"
   | ["kw", n, v] =>
       match str? n, val? v with
-      | some n, some v => updCur a fun c => { c with kw := c.kw ++ [(n, v)] }
+      | some n, some v' => updCur a fun c => { c with kw := c.kw ++ [(n, v')], otab := c.otab.addRepr v }
       | _, _ => a.fail "bad kw"
   | "pf" :: rest =>
-      match oracleLine? rest with
-      | some p => updCur a fun c => { c with otab := { c.otab with pf := c.otab.pf ++ [p] } }
-      | none => a.fail "bad pf"
-  | "pd" :: rest =>
-      match oracleLine? rest with
-      | some p => updCur a fun c => { c with otab := { c.otab with pd := c.otab.pd ++ [p] } }
-      | none => a.fail "bad pd"
+      match a.cur with
+      | some c => (match c.otab.addParse? rest with
+          | some t => { a with cur := some { c with otab := t } }
+          | none => a.fail "bad pf")
+      | none => a.fail "pf outside a call"
   | ["sent", n] => updCur a fun c => { c with sent := n.toNat! }
   | "exc" :: rest =>
       match excInfo? rest with
